@@ -536,4 +536,38 @@ example : dimStepFull none [0, 1, 3] (1/4) 0 false true = .ok (some (3/2)) := by
 example : dimStepFull none [0, 1, 3] (1/2) 0 true true = .ok (some (3/2)) := by decide +kernel
 example : dimStepFull none [0, 1, 3] (1/2) 0 true false = .error .invalid := by decide +kernel
 
+-- the hypotheses of `C17_extend_exact` / `C17_extend_lattice` are satisfiable (axis 0, 1/2; request [-1, 3/2))
+example : ∃ kl kr : Nat,
+    extendDim [((0 : Rat), (1 : Int)), (1/2, 2)] none (some (-1)) (some (3/2)) 0 (1/1024) true false = .ok (
+        (lattice (0 - (kl : Rat) * (1/2)) (1/2) kl).map (fun c => (c, (0 : Int))) ++ [((0 : Rat), (1 : Int)), (1/2, 2)] ++
+        (lattice (0 + ((1 + 1 : Nat) : Rat) * (1/2)) (1/2) kr).map (fun c => (c, (0 : Int)))) := by
+  have hlt : ∀ j : Nat, (j : Rat) < 3 → j < 3 := by
+    intro j h
+    have : (j : Rat) < ((3 : Nat) : Rat) := by simpa using h
+    exact Rat.natCast_lt_natCast.mp this
+  have hle : ∀ j : Nat, (j : Rat) ≤ 1 → j ≤ 1 := by
+    intro j h
+    have : (j : Rat) ≤ ((1 : Nat) : Rat) := by simpa using h
+    exact Rat.natCast_le_natCast.mp this
+  obtain ⟨kl, kr, h, _, _⟩ := C17_extend_exact (α := Int) [((0 : Rat), (1 : Int)), (1/2, 2)] none (some (-1)) (some (3/2)) 0 (1/1024)
+    true false 0 (1/2) 1 (by decide +kernel) (by decide +kernel) (by decide +kernel) (by decide +kernel)
+    (by decide +kernel) (by decide +kernel)
+    (by
+      intro j hj h
+      simp at h
+      have h3 : ¬ (j : Rat) < 3 := by
+        intro hj3
+        have := hlt j hj3
+        have : j = 1 ∨ j = 2 := by omega
+        rcases this with rfl | rfl <;> simp at h <;> grind
+      grind)
+    (by
+      intro i hi h
+      simp at h
+      have h2 : (i : Rat) < 3 := by grind
+      have := hlt i h2
+      have : i = 1 ∨ i = 2 := by omega
+      rcases this with rfl | rfl <;> simp at h <;> grind)
+  exact ⟨kl, kr, h⟩
+
 end SE.Proofs.C17
